@@ -614,6 +614,10 @@ pub fn run(tier: &str) -> i32 {
     ev.set("distinct_line_shapes", json!(st.word_class.len()));
     ev.set("transport", th.to_json());
     ev.set("known_findings_seen", json!(v.known_seen()));
+    // Engine R: transport-level input against one real process (framing the corpus cannot express, and input whose
+    // failure mode is an abort of the whole process)
+    let real = crate::realparts::c10_real(&v, thorough);
+    ev.set("real_process", real.to_json());
     ev.violations = v.violation_count();
     ev.assumptions = vec![
         "built with overflow-checks and debug-assertions on (profile verif); the thorough tier repeats the arithmetic-sensitive targeted sequences in a release build".into(),
